@@ -20,6 +20,11 @@
 (*   FixWatchdogStopped FALSE: stop() cancels the watchdog only through a  *)
 (*                             REQUESTED close of a not-yet-closed server  *)
 (*                             connection                                  *)
+(*   FixCancelFirst     FALSE: disconnect() cancels its tasks (watchdog)    *)
+(*                             only after the connections are closed: a    *)
+(*                             watchdog that wakes inside a slow stop()    *)
+(*                             reconnects (not the pinned code: a seeded   *)
+(*                             regression the model must be able to show)  *)
 (*   FixTimersStopped   FALSE: search-request timers survive stop()        *)
 (*   FixStaleInit       FALSE: a session closed inside its login burst     *)
 (*                             still gets its tracking workers: they outlive*)
@@ -31,8 +36,10 @@
 (*                             client, the session is not destroyed        *)
 (*   FixQueueOnce       FALSE: a superseded queue-remotely task of a       *)
 (*                             download is not cancelled by stop() (C06)   *)
-(* (the last two are repaired by fixes/C15-2 and fixes/C06-1, the others   *)
-(*  by fixes/C16-1 .. C16-5)                                               *)
+(*   FixScanStopped     FALSE: the start-up scan task (client.py:128) is   *)
+(*                             not kept, stop() leaves it running          *)
+(* (FixSelfAwait / FixQueueOnce are repaired by fixes/C15-2 and C06-1, the *)
+(*  others by fixes/C16-1 .. C16-6)                                        *)
 (* With all of them TRUE every property below holds; with one FALSE TLC    *)
 (* gives the counterexample (MC_asCode_*.cfg).                             *)
 (*                                                                         *)
@@ -51,9 +58,12 @@ CONSTANTS
   MaxLosses,           \* fault budget: server losses per behaviour
   MaxLogins,           \* login() calls by the user per behaviour
   MaxConnFail,         \* failed reconnect attempts per behaviour
+  SlowScan,            \* subset of BOOLEAN: may the start-up share scan (shares.scan_on_start) be slow,
+                       \* i.e. still in flight when the application goes on (login, stop)
   Env,                 \* which optional environment actions are on: subset of
                        \* {"exec", "peerin", "userdisc", "midburst"} (midburst = stop / disconnect inside the burst)
-  FixAutoJoin, FixDistStopped, FixWatchdogStopped, FixTimersStopped, FixStaleInit, FixSelfAwait, FixQueueOnce
+  FixAutoJoin, FixDistStopped, FixWatchdogStopped, FixCancelFirst, FixTimersStopped, FixStaleInit, FixSelfAwait,
+  FixQueueOnce, FixScanStopped
 
 ----------------------------------------------------------------------------
 \* The settings matrix
@@ -140,6 +150,7 @@ AllBgKinds == {"pparent",   \* potential-parent connect  (distributed.py:380-394
 CoreKinds  == {"core",      \* user / transfer management, progress reporting (started in start())
                "ping",      \* server.py: started on CONNECTED, cancelled on CLOSING
                "reader",    \* server reader loop, started after a successful login
+               "scan",      \* the start-up share scan (client.py:127-128), while its executor jobs run
                "track",     \* tracking workers of self + friends
                "strack",    \* as-code only: workers started for a session that was lost inside its burst
                "ztrack"}    \* as-code only: ... that was stopped inside its burst (after users.stop())
@@ -154,15 +165,16 @@ DiesWithNetwork == DiesWithServer \cup {"ctp"}
 DiesWithServices ==
   {"core", "track", "strack", "retry", "sreply"}
     \cup (IF FixQueueOnce THEN {"xfer"} ELSE {})
+    \cup (IF FixScanStopped THEN {"scan"} ELSE {})
     \cup (IF FixDistStopped THEN {"pparent"} ELSE {})
     \cup (IF FixTimersStopped THEN {"stimer"} ELSE {})
 
 ----------------------------------------------------------------------------
 VARIABLES
   cfg,        \* the settings vector
-  plan,       \* [burst |-> Burst(cfg), exp |-> Expected(cfg)], fixed in Init (evaluated once)
+  plan,       \* [burst |-> Burst(cfg), exp |-> Expected(cfg), slow |-> slow start-up scan], fixed in Init
   phase,      \* "new" | "started" | "stopping" | "stopped"
-  spc,        \* stop(): "none" | "svc" | "ret" | "done"
+  spc,        \* stop(): "none" | "net" | "netslow" | "svc" | "ret" | "done"
   srv,        \* server connection: "none" | "connecting" | "connected" | "closed"
   reason,     \* why it closed last: "none" | "requested" | "eof" | "error" | "timeout" | "connect_failed"
   session,    \* a session exists
@@ -185,7 +197,7 @@ Unrequested(r) == r \notin {"none", "requested", "eof"}
 
 Init ==
   /\ cfg \in SettingsSpace
-  /\ plan = [burst |-> Burst(cfg), exp |-> Expected(cfg)]
+  /\ \E sl \in SlowScan : plan = [burst |-> Burst(cfg), exp |-> Expected(cfg), slow |-> sl]
   /\ phase = "new" /\ spc = "none" /\ srv = "none" /\ reason = "none"
   /\ session = FALSE /\ lpc = "idle" /\ sent = {}
   /\ epi = [had |-> FALSE, n |-> 0]
@@ -204,7 +216,8 @@ StartCore ==
   /\ UNCHANGED <<cfg, plan, spc, reason, session, lpc, sent, epi, losses, logins, cfails, lastExec>>
 Start ==
   /\ StartCore
-  /\ open' = cfg.ports \cup {"server"} /\ bg' = {"core", "ping"} /\ UNCHANGED derived
+  /\ open' = cfg.ports \cup {"server"} /\ UNCHANGED derived
+  /\ bg' = {"core", "ping"} \cup (IF plan.slow THEN {"scan"} ELSE {})
 
 \* client.py:164-212 login(): request, synchronous read of the reply, session, SessionInitialized.
 \* who = "user": the application calls login(); who = "auto": _on_server_reconnected (client.py:376),
@@ -313,23 +326,42 @@ ExecuteCore ==
   /\ UNCHANGED <<cfg, plan, phase, spc, srv, reason, session, lpc, sent, epi, watchdog, losses, logins, cfails>>
 Execute == ExecuteCore /\ UNCHANGED ovars
 
-\* client.py:138-156 stop(), first stretch: network.disconnect() - connect tasks cancelled, the
-\* server connection (unless already closed), the listeners and the peer connections closed with
-\* REQUESTED.  Design: the watchdog is off afterwards whatever the connection state was.
+\* client.py:138-156 stop() spans time.  First stretch: network.disconnect() cancels its tasks
+\* (connect-to-peer tasks, the watchdog - network.py _cancel_all_tasks) and begins to close the
+\* server connection (unless already closed), the listeners and the peer connections with REQUESTED.
+\* Design: the watchdog is off from here on whatever the connection state was.
 StopBeginCore(emitted) ==
   /\ phase = "started" /\ lpc # "auto" /\ (lpc = "burst" => "midburst" \in Env)
-  /\ phase' = "stopping" /\ spc' = "svc"
+  /\ phase' = "stopping" /\ spc' = "net"
   /\ IF srv \in {"connected", "connecting"}
        THEN /\ srv' = "closed" /\ reason' = "requested"
             /\ epi' = [had |-> session, n |-> emitted]
        ELSE UNCHANGED <<srv, reason, epi>>
   /\ session' = FALSE /\ lpc' = "idle"
-  /\ watchdog' = IF FixWatchdogStopped \/ srv \in {"connected", "connecting"} THEN "off" ELSE watchdog
+  /\ watchdog' = IF (FixWatchdogStopped /\ FixCancelFirst) \/ srv \in {"connected", "connecting"}
+                  THEN "off" ELSE watchdog
   /\ UNCHANGED <<cfg, plan, sent, losses, logins, cfails, lastExec>>
 StopBegin ==
   /\ StopBeginCore(IF session THEN 1 ELSE 0)
-  /\ open' = {} /\ derived' = {}
+  /\ open' = open \ {"server"} /\ derived' = {}
   /\ bg' = (bg \ DiesWithNetwork) \cup (IF StaleInit THEN {"ztrack"} ELSE {})
+
+\* environment: closing the connections takes long (a ConnectionStateChangedEvent listener of the
+\* application that suspends - the event bus awaits listeners inline -, a close that waits for its
+\* write buffer): timers of the library come due inside stop()
+StopStallCore ==
+  /\ spc = "net" /\ spc' = "netslow"
+  /\ UNCHANGED <<cfg, plan, phase, srv, reason, session, lpc, sent, epi, watchdog, losses, logins, cfails, lastExec>>
+StopStall == StopStallCore /\ UNCHANGED ovars
+
+\* the connections are closed, network.disconnect() returns
+StopNetDoneCore ==
+  /\ spc \in {"net", "netslow"} /\ spc' = "svc"
+  /\ watchdog' = IF FixWatchdogStopped /\ ~FixCancelFirst THEN "off" ELSE watchdog   \* the late cancel
+  /\ UNCHANGED <<cfg, plan, phase, srv, reason, session, lpc, sent, epi, losses, logins, cfails, lastExec>>
+StopNetDone ==
+  /\ StopNetDoneCore
+  /\ open' = (IF srv = "connected" THEN {"server"} ELSE {}) /\ UNCHANGED <<bg, derived>>
 
 \* second stretch: every service's stop(), gather of the cancelled tasks, store_data()
 StopServicesCore ==
@@ -351,14 +383,14 @@ Spawn(k) ==
 
 \* it ends by itself (timeout, failure, timer fired)
 Finish(k) ==
-  /\ k \in bg \cap BgKinds
+  /\ k \in bg \cap (BgKinds \cup {"scan"})
   /\ bg' = bg \ {k}
   /\ UNCHANGED <<mvars, open, derived>>
 
 \* a pending connect completes: a peer connection is open.  Not inside stop(): a connection
 \* that is being closed with REQUESTED does not come up afterwards (that contract is C10 / C11's).
 PeerOpens(k) ==
-  /\ k \in bg \cap ConnectKinds /\ spc \notin {"svc", "ret"}
+  /\ k \in bg \cap ConnectKinds /\ spc \notin {"net", "netslow", "svc", "ret"}
   /\ bg' = bg \ {k} /\ open' = open \cup {"peer"}
   /\ UNCHANGED <<mvars, derived>>
 
@@ -376,8 +408,9 @@ Next ==
   \/ UserDisconnect
   \/ WatchdogWake \/ ReconnectOk \/ ReconnectFail
   \/ Execute
-  \/ StopBegin \/ StopServices \/ StopReturn
+  \/ StopBegin \/ StopStall \/ StopNetDone \/ StopServices \/ StopReturn
   \/ \E k \in BgKinds : Spawn(k) \/ Finish(k) \/ PeerOpens(k)
+  \/ Finish("scan")
   \/ PeerIn
 
 Spec == Init /\ [][Next]_vars
@@ -389,7 +422,7 @@ FairSpec == Spec /\ WF_vars(WatchdogWake) /\ WF_vars(ReconnectOk \/ ReconnectFai
 
 TypeOK ==
   /\ cfg \in SettingsSpace
-  /\ phase \in {"new", "started", "stopping", "stopped"} /\ spc \in {"none", "svc", "ret", "done"}
+  /\ phase \in {"new", "started", "stopping", "stopped"} /\ spc \in {"none", "net", "netslow", "svc", "ret", "done"}
   /\ srv \in {"none", "connecting", "connected", "closed"}
   /\ reason \in {"none", "requested", "eof", "error", "timeout", "connect_failed"}
   /\ session \in BOOLEAN /\ lpc \in {"idle", "auto", "burst"}
@@ -397,10 +430,13 @@ TypeOK ==
   /\ bg \subseteq (AllBgKinds \cup CoreKinds) /\ open \subseteq (AllPorts \cup {"server", "peer"})
   /\ derived \subseteq DerivedKinds
 
+\* With a slow start-up scan the share counts told at login are those of the moment (0/0, or the
+\* real ones if the scan ended first): that one advertisement is then not judged.
+Judged(S) == IF plan.slow THEN {f \in S : f[1] # "shares"} ELSE S
 \* never told something the settings do not say ...
-AdvertisedOnly == sent \subseteq plan.exp
+AdvertisedOnly == Judged(sent) \subseteq Judged(plan.exp)
 \* ... and at the first quiescence after a successful login told everything
-AdvertisedExactly == (session /\ lpc = "idle" /\ srv = "connected") => sent = plan.exp
+AdvertisedExactly == (session /\ lpc = "idle" /\ srv = "connected") => Judged(sent) = Judged(plan.exp)
 
 NoCommandWithoutSession == lastExec.res # "none" => ((lastExec.res = "refused") <=> ~lastExec.sess)
 
